@@ -1,7 +1,7 @@
 (* C06  Registry admission is exact and a failed registration leaves no trace (lemmas).
 
    Layers:
-   0. list / association-list / wrapping-sum facts;
+   0. list / association-list / collector-id facts;
    1. the per-descriptor loop of RegistryCore::register restated as a verdict function on
       (registry tables, descriptors already seen in this collector, descriptor) - no staging,
       no accumulators ([reg_register_verdict]);
@@ -121,26 +121,19 @@ Proof.
   - cbn. rewrite IH. reflexivity.
 Qed.
 
-(* wrapping sums *)
-Definition wadd (a i : N) : N := wrap64 (a + i).
-Definition wsum (l : list N) : N := fold_left wadd l 0.
-Definition nsum (l : list N) : N := fold_right N.add 0 l.
-Lemma two64_pos : two64 <> 0. Proof. discriminate. Qed.
-Lemma fold_wadd l : forall a, a < two64 -> fold_left wadd l a = wrap64 (a + nsum l).
+(* the collector id: FNV-1a over the SORTED descriptor ids, so it depends only on the set of ids
+   (before commit edcf206 it was their wrapping sum, which collides for ordinary collectors) *)
+Lemma Nleb_total x y : N.leb x y = true \/ N.leb y x = true.
+Proof. destruct (N.leb x y) eqn:E; auto. right. apply N.leb_le. apply N.leb_gt in E. lia. Qed.
+Lemma Nleb_trans x y z : N.leb x y = true -> N.leb y z = true -> N.leb x z = true.
+Proof. rewrite !N.leb_le. lia. Qed.
+Lemma ids_hash_perm l l' : Permutation l l' -> ids_hash l = ids_hash l'.
 Proof.
-  induction l as [|i l IH]; intros a Ha; cbn [fold_left]; [change (nsum []) with 0|change (nsum (i :: l)) with (i + nsum l)].
-  - unfold wrap64. rewrite N.add_0_r. symmetry. apply N.mod_small. exact Ha.
-  - rewrite IH by (unfold wadd, wrap64; apply N.mod_lt; exact two64_pos).
-    unfold wadd, wrap64. rewrite N.add_mod_idemp_l by exact two64_pos. f_equal. lia.
+  intros P. unfold ids_hash. f_equal. f_equal. apply (sort_by_perm_inv N.leb Nleb_total Nleb_trans); auto.
+  intros x y _ _ H1 H2. apply N.leb_le in H1, H2. lia.
 Qed.
-Lemma wsum_nsum l : wsum l = wrap64 (nsum l).
-Proof. unfold wsum. rewrite fold_wadd by reflexivity. reflexivity. Qed.
-Lemma nsum_perm l l' : Permutation l l' -> nsum l = nsum l'.
-Proof. unfold nsum. induction 1; cbn [fold_right] in *; try lia. Qed.
-Lemma wsum_perm l l' : Permutation l l' -> wsum l = wsum l'.
-Proof. intros P. rewrite !wsum_nsum. f_equal. apply nsum_perm. exact P. Qed.
-Lemma wsum_snoc l i : wsum (l ++ [i]) = wrap64 (wsum l + i).
-Proof. unfold wsum. rewrite fold_left_app. reflexivity. Qed.
+Lemma ids_hash_rev l : ids_hash (rev l) = ids_hash l.
+Proof. apply ids_hash_perm. apply Permutation_sym, Permutation_rev. Qed.
 
 (* the distinct ids of a collector, in order of first occurrence *)
 Lemma distinct_ids_nodup_gen ds : forall acc,
@@ -175,11 +168,10 @@ Proof. apply (distinct_ids_spec ds [] (NoDup_nil _)). Qed.
 Lemma collector_id_same_set ds1 ds2 :
   (forall i, In i (map d_id ds1) <-> In i (map d_id ds2)) -> collector_id ds1 = collector_id ds2.
 Proof.
-  intros H. unfold collector_id. change (wsum (distinct_ids ds1 []) = wsum (distinct_ids ds2 [])).
-  apply wsum_perm. apply NoDup_Permutation; try apply distinct_ids_NoDup.
+  intros H. unfold collector_id. apply ids_hash_perm. apply NoDup_Permutation; try apply distinct_ids_NoDup.
   intros i. rewrite !distinct_ids_In. apply H.
 Qed.
-Lemma collector_id_nodup ds : NoDup (map d_id ds) -> collector_id ds = wsum (map d_id ds).
+Lemma collector_id_nodup ds : NoDup (map d_id ds) -> collector_id ds = ids_hash (map d_id ds).
 Proof. intros ND. unfold collector_id. rewrite distinct_ids_nodup; auto. Qed.
 
 (* ====================================================================================== *)
@@ -307,14 +299,14 @@ Section Loop.
       symmetry. apply Hpd; auto.
   Qed.
 
-  Lemma check_descs_verdict r ds : forall pre, pre_ok r pre ->
-    reg_check_descs r ds (rev (map d_id pre)) (wsum (map d_id pre)) (stage pre) =
+  Lemma check_descs_verdict r ds : forall pre cid, pre_ok r pre ->
+    reg_check_descs r ds (rev (map d_id pre)) cid (stage pre) =
     match first_by (desc_verdict r) pre ds with
     | Some e => Err e
-    | None => Ok (rev (map d_id (pre ++ ds)), wsum (map d_id (pre ++ ds)), stage (pre ++ ds))
+    | None => Ok (rev (map d_id (pre ++ ds)), ids_hash (rev (map d_id (pre ++ ds))), stage (pre ++ ds))
     end.
   Proof.
-    induction ds as [|d ds IH]; intros pre Hp; cbn [reg_check_descs first_by].
+    induction ds as [|d ds IH]; intros pre cid Hp; cbn [reg_check_descs first_by].
     - rewrite app_nil_r. reflexivity.
     - pose proof (pre_ok_snoc r pre d Hp) as Hsn. unfold desc_verdict in *.
       destruct (memN (d_id d) (r_desc_ids r)); [reflexivity|].
@@ -328,16 +320,16 @@ Section Loop.
           apply negb_false_iff in Eh. rewrite Eh. reflexivity. }
         rewrite Ex in *. rewrite memN_rev.
         destruct (memN (d_id d) (map d_id pre)); [reflexivity|].
-        specialize (IH (pre ++ [d]) (Hsn eq_refl)).
+        specialize (IH (pre ++ [d]) cid (Hsn eq_refl)).
         rewrite (map_app d_id pre [d]) in IH. cbn [map] in IH.
-        rewrite rev_app_distr, wsum_snoc, stage_snoc in IH. cbn [rev app] in IH.
+        rewrite rev_app_distr, stage_snoc in IH. cbn [rev app] in IH.
         rewrite IH, <- !app_assoc. reflexivity.
       + rewrite (staged_lookup r pre d Hp) in *.
         destruct (existsb (fun d' => dim_conflict d' d) pre); [reflexivity|].
         rewrite memN_rev. destruct (memN (d_id d) (map d_id pre)); [reflexivity|].
-        specialize (IH (pre ++ [d]) (Hsn eq_refl)).
+        specialize (IH (pre ++ [d]) cid (Hsn eq_refl)).
         rewrite (map_app d_id pre [d]) in IH. cbn [map] in IH.
-        rewrite rev_app_distr, wsum_snoc, stage_snoc in IH. cbn [rev app] in IH.
+        rewrite rev_app_distr, stage_snoc in IH. cbn [rev app] in IH.
         rewrite IH, <- !app_assoc. reflexivity.
   Qed.
 
@@ -349,9 +341,9 @@ Section Loop.
     match first_by (desc_verdict r) [] ds with
     | Some e => Err e
     | None =>
-        match nlookup (wsum (map d_id ds)) (r_collectors r) with
+        match nlookup (ids_hash (map d_id ds)) (r_collectors r) with
         | Some _ => Err EAlreadyReg
-        | None => Ok (mkReg (r_collectors r ++ [(wsum (map d_id ds), c)])
+        | None => Ok (mkReg (r_collectors r ++ [(ids_hash (map d_id ds), c)])
                             (fold_left ains (stage ds) (r_dim_hashes r))
                             (r_desc_ids r ++ map d_id ds) (r_labels r) (r_prefix r))
         end
@@ -359,9 +351,9 @@ Section Loop.
   Theorem reg_register_verdict r ds c : reg_register r ds c = reg_register_spec r ds c.
   Proof.
     unfold reg_register, reg_register_spec.
-    pose proof (check_descs_verdict r ds [] (pre_ok_nil r)) as H. cbn [map rev app] in H.
-    change (wsum []) with 0 in H. change (stage []) with (@nil (str * N)) in H. rewrite H.
-    destruct (first_by (desc_verdict r) [] ds); auto. rewrite rev_involutive. reflexivity.
+    pose proof (check_descs_verdict r ds [] 0 (pre_ok_nil r)) as H. cbn [map rev app] in H.
+    change (stage []) with (@nil (str * N)) in H. rewrite H.
+    destruct (first_by (desc_verdict r) [] ds); auto. rewrite rev_involutive, ids_hash_rev. reflexivity.
   Qed.
 End Loop.
 
@@ -878,7 +870,7 @@ Section Abs.
   Proof.
     rewrite reg_register_verdict. unfold reg_register_spec.
     destruct (first_by (desc_verdict r) [] ds) eqn:E; [discriminate|]. apply verdict_None_hash in E.
-    assert (Ec : collector_id ds = wsum (map d_id ds)) by (apply collector_id_nodup, E). rewrite <- Ec.
+    assert (Ec : collector_id ds = ids_hash (map d_id ds)) by (apply collector_id_nodup, E). rewrite <- Ec.
     destruct (nlookup (collector_id ds) (r_collectors r)); [discriminate|]. intros H. inversion H. auto.
   Qed.
 
@@ -1031,8 +1023,8 @@ Section Abs.
     (* dimension hashes are injective on the pool, per name *)
     Hypothesis dims_exact : forall d1 d2, P d1 -> P d2 -> d_fq_name d1 = d_fq_name d2 ->
                                           (d_dim d1 = d_dim d2 <-> same_dim d1 d2).
-    (* no collision between the id sums of different descriptor-id sets *)
-    Hypothesis sums_exact : forall ds1 ds2, CP ds1 -> CP ds2 -> collector_id ds1 = collector_id ds2 ->
+    (* the collector id (ids_hash: FNV-1a over the sorted descriptor ids) is injective on the id sets of the collectors in play *)
+    Hypothesis cids_exact : forall ds1 ds2, CP ds1 -> CP ds2 -> collector_id ds1 = collector_id ds2 ->
                                             forall i, In i (map d_id ds1) <-> In i (map d_id ds2).
 
     Definition st_in st : Prop := (forall d, In d (s_hist st) -> P d) /\ (forall e, In e (s_cur st) -> CP (fst e)).
@@ -1047,7 +1039,7 @@ Section Abs.
     Lemma coll_exact ds1 ds2 : CP ds1 -> CP ds2 -> (collector_id ds1 = collector_id ds2 <-> same_coll ds1 ds2).
     Proof.
       intros H1 H2. split.
-      - intros E. pose proof (sums_exact ds1 ds2 H1 H2 E) as S. split; intros d Hd.
+      - intros E. pose proof (cids_exact ds1 ds2 H1 H2 E) as S. split; intros d Hd.
         + assert (Hi : In (d_id d) (map d_id ds2)) by (apply S, in_map; auto).
           apply in_map_iff in Hi as (d' & E' & Hd'). exists d'. split; auto. apply ids_exact; eauto.
         + assert (Hi : In (d_id d) (map d_id ds1)) by (apply S, in_map; auto).
@@ -1169,7 +1161,7 @@ Section Abs.
       destruct (reg_unregister r ds) as [r'|e] eqn:H.
       - pose proof H as H'. apply unregister_ok_inv in H' as [Hk E]. apply nlookup_in_keys in Hk as [v Hv]. rewrite Hv.
         split; auto. split; [|split; [apply st_in_del; auto|subst r'; reflexivity]].
-        eapply unregister_abs; eauto. intros e He Ek. apply sums_exact; auto. apply (proj2 S); auto.
+        eapply unregister_abs; eauto. intros e He Ek. apply cids_exact; auto. apply (proj2 S); auto.
       - pose proof (unregister_err r ds e H) as ->. unfold reg_unregister in H.
         destruct (nlookup (collector_id ds) (r_collectors r)); [discriminate|reflexivity].
     Qed.
@@ -1221,7 +1213,7 @@ Section Abs.
     rewrite reg_register_verdict. unfold reg_register_spec. destruct (first_by (desc_verdict r) [] ds) as [e0|] eqn:E.
     - intros H. inversion H; subst. apply first_by_Some in E as (a & d & b & _ & _ & Hd). rewrite desc_verdict_gen in Hd.
       apply gen_verdict_kinds in Hd as [[-> _]|[-> _]]; auto.
-    - destruct (nlookup (wsum (map d_id ds)) (r_collectors r)); [|discriminate]. intros H. inversion H. auto.
+    - destruct (nlookup (ids_hash (map d_id ds)) (r_collectors r)); [|discriminate]. intros H. inversion H. auto.
   Qed.
 End Abs.
 
@@ -1232,7 +1224,7 @@ Definition ids_exact_on (P : Desc -> Prop) : Prop :=
   forall d1 d2, P d1 -> P d2 -> (d_id d1 = d_id d2 <-> same_id d1 d2).
 Definition dims_exact_on (P : Desc -> Prop) : Prop :=
   forall d1 d2, P d1 -> P d2 -> d_fq_name d1 = d_fq_name d2 -> (d_dim d1 = d_dim d2 <-> same_dim d1 d2).
-Definition sums_exact_on (CP : list Desc -> Prop) : Prop :=
+Definition cids_exact_on (CP : list Desc -> Prop) : Prop :=
   forall ds1 ds2, CP ds1 -> CP ds2 -> collector_id ds1 = collector_id ds2 ->
                   forall i, In i (map d_id ds1) <-> In i (map d_id ds2).
 
@@ -1278,7 +1270,7 @@ Section History.
     Hypothesis CP_P : forall ds d, CP ds -> In d ds -> P d.
     Hypothesis Hids : ids_exact_on P.
     Hypothesis Hdims : dims_exact_on P.
-    Hypothesis Hsums : sums_exact_on CP.
+    Hypothesis Hcids : cids_exact_on CP.
 
     Lemma step_refines st r o :
       reg_abs st r -> st_in P CP st -> CP (op_ds o) ->
@@ -1288,11 +1280,11 @@ Section History.
       /\ r_labels (fst (reg_step r o)) = r_labels r.
     Proof.
       intros A S Ho. destruct o as [ds c|ds]; cbn [reg_step spec_step op_ds] in *.
-      - pose proof (register_refines P CP CP_P Hids Hdims Hsums st r ds c A S Ho) as H.
+      - pose proof (register_refines P CP CP_P Hids Hdims Hcids st r ds c A S Ho) as H.
         destruct (reg_register r ds c) as [r'|e].
         + destruct H as (-> & H2 & H3 & H4). cbn. auto.
         + rewrite H. cbn. auto.
-      - pose proof (unregister_refines P CP CP_P Hids Hsums st r ds A S Ho) as H.
+      - pose proof (unregister_refines P CP CP_P Hids Hcids st r ds A S Ho) as H.
         destruct (reg_unregister r ds) as [r'|e].
         + destruct H as (-> & H2 & H3 & H4). cbn. auto.
         + rewrite H. cbn. auto.
@@ -1323,7 +1315,7 @@ Section History.
 
   (* every history of register/unregister calls on a fresh registry, in every reachable state *)
   Theorem history_refines_fresh ops r0 :
-    fresh_registry r0 -> ids_exact_on (hist_P ops) -> dims_exact_on (hist_P ops) -> sums_exact_on (hist_CP ops) ->
+    fresh_registry r0 -> ids_exact_on (hist_P ops) -> dims_exact_on (hist_P ops) -> cids_exact_on (hist_CP ops) ->
     forall pre post, ops = pre ++ post ->
       reg_trace r0 pre = spec_trace (r_labels r0) s_empty pre
       /\ reg_abs (spec_final (r_labels r0) s_empty pre) (reg_final r0 pre).
